@@ -504,7 +504,18 @@ def rule_scan_loop_state(ck: Check, repo: Repo, rid: str = "R12") -> None:
             key = ast.unparse(x.targets[0].slice)
             if cont.startswith("self.licenses_without_extension"):
                 continue   # same key => same identifier => the duplicate refusal below has already fired
-            guarded = any(isinstance(g, ast.If) and ast.unparse(g.test) in (f"{key} in {cont}",) and any(isinstance(y, ast.Raise) for y in ast.walk(g))
+            from ..rules import deep_text as _dtg
+            _fnq = repo.func(q)
+
+            def _asks_membership(t) -> bool:
+                # `k in D`, or the same question through `D.get(k) is not None` (also via a local that holds the .get())
+                try:
+                    tt = _dtg(_fnq, t)
+                except Exception:  # noqa: BLE001
+                    tt = ast.unparse(t)
+                return ast.unparse(t) == f"{key} in {cont}" or tt in (f"{key} in {cont}", f"{cont}.get({key}) is not None")
+
+            guarded = any(isinstance(g, ast.If) and _asks_membership(g.test) and any(isinstance(y, ast.Raise) for y in ast.walk(g))
                           for g in ast.walk(loop))
             r.instance(f"store:{cont}[{key}]", {"container": cont, "key": key, "second_writer_refused": guarded}, q)
             if not guarded:
